@@ -30,7 +30,7 @@ def getBox : Nat → Sexp → Option Box
       pl := ← getDim pl, pr := ← getDim pr, pt := ← getDim pt, pb := ← getDim pb,
       bl := ← bl.asRat?, br := ← br.asRat?, bt := ← bt.asRat?, bb := ← bb.asRat?,
       width := ← getDim w, minW := ← getDim minW, maxW := ← getDim maxW, height := ← getDim h,
-      minH := ← minH.asRat?, maxH := ← getMaxH maxH, sizing := ← getSizing sz }
+      minH := ← getDim minH, maxH := ← getDim maxH, sizing := ← getSizing sz }
     some (.mk s (← cs.mapM (getBox fuel)))
   | _, _ => none
 
